@@ -50,7 +50,14 @@ pub mod ffi {
         idx: u64,
     ) {
         let idx = idx.try_into().ok();
-        match idx.and_then(|idx| this.get(idx)) {
+
+        // The lock must be held from the lookup until the element has been
+        // cloned: a push from another thread can reallocate the storage and
+        // would leave us with a dangling pointer otherwise.
+        #[cfg(nlnetlabs_roto_verif)]
+        crate::verif_api::yield_point(11);
+        let raw = this.0.lock().unwrap();
+        match idx.and_then(|idx| raw.get(idx)) {
             Some(src) => {
                 // We got a pointer into the list, clone it into out at the correct alignment
 
@@ -63,9 +70,6 @@ pub mod ffi {
                 // `out` must be a valid RotoOption<T>.
                 unsafe { out.cast::<u8>().write(1) };
 
-                #[cfg(nlnetlabs_roto_verif)]
-                crate::verif_api::yield_point(11);
-                let raw = this.0.lock().unwrap();
                 let size = raw.vtable.size();
                 let alignment = raw.vtable.align();
                 let offset = 1usize.next_multiple_of(alignment);
@@ -247,12 +251,17 @@ pub mod boundary {
 
         /// Get the element at index `idx`
         pub fn get(&self, idx: usize) -> Option<T> {
-            let ptr = self.inner.get(idx)?;
             #[cfg(nlnetlabs_roto_verif)]
             crate::verif_api::yield_point(1);
+            // The lock must be held until the element has been cloned: a
+            // push from another thread can reallocate the storage and would
+            // leave us with a dangling pointer otherwise.
+            let guard = self.inner.0.lock().unwrap();
+            let ptr = guard.get(idx)?;
 
             // SAFETY: The list has values of T::Transformed, which means that
-            // this cast is valid.
+            // this cast is valid. The pointer stays valid because we hold
+            // the lock.
             let transformed =
                 unsafe { ptr.cast::<T::Transformed>().as_ref() };
 
